@@ -181,6 +181,10 @@ fn positive_cfg(rng: &mut Rng) -> BuildCfg {
         cfg.files.push(mk("/opt/pair/m-dir/inside", 0o100644, None, 5));
         cfg.files.push(mk("/opt/pair/b-dirlink", 0o120777, Some("m-dir"), 0));
         cfg.files.push(mk("/opt/pair/y-dirlink", 0o120777, Some("/opt/pair/m-dir"), 0));
+        // sibling names of which one extends the other with a character below '/'
+        for (d, fname) in [("app", "run"), ("app-data", "blob"), ("app.d", "10-x.conf"), ("app data", "y"), ("app+", "z")] {
+            cfg.files.push(mk(&format!("/opt/pair/{d}/{fname}"), 0o100644, None, 12));
+        }
         // ordinary relative links whose targets climb to the package root (and beyond) and come down again
         cfg.files.push(mk("/opt/pair/r-link", 0o120777, Some("../../opt/pair/m-target"), 0));
         cfg.files.push(mk("/opt/pair/s-link", 0o120777, Some("../../../../../../etc/os-release-does-not-matter"), 0));
@@ -273,6 +277,8 @@ struct Hostile {
     contents: Vec<Vec<u8>>,
     /// cpio names (None = "." + header path)
     names: Vec<Option<Vec<u8>>>,
+    /// record the sizes as 64-bit values (LONGFILESIZES) although the archive is name-addressed
+    long_sizes: bool,
 }
 
 fn hfile(dir: &str, base: &str, mode: u16, content: &[u8], linkto: &str) -> (HFile, Vec<u8>) {
@@ -288,7 +294,7 @@ fn hostile_cases(jail_root: &Path, rng: &mut Rng, n_random: usize) -> Vec<Hostil
     let mut add = |label: &str, items: Vec<(HFile, Vec<u8>)>| {
         let (files, contents): (Vec<HFile>, Vec<Vec<u8>>) = items.into_iter().unzip();
         let n = files.len();
-        out.push(Hostile { stripped: false, label: label.to_string(), files, contents, names: vec![None; n] });
+        out.push(Hostile { stripped: false, label: label.to_string(), files, contents, names: vec![None; n], long_sizes: false });
     };
     let reg = 0o100644u16;
     // '..' components
@@ -390,8 +396,17 @@ fn hostile_cases(jail_root: &Path, rng: &mut Rng, n_random: usize) -> Vec<Hostil
     // cpio name disagrees with the header
     let (f1, c1) = hfile("/a/", "one", reg, b"content one", "");
     let (f2, c2) = hfile("/a/", "two", reg, b"content two", "");
-    out.push(Hostile { stripped: false, label: "cpio-name-disagrees".into(), files: vec![f1.clone(), f2.clone()], contents: vec![c1.clone(), c2.clone()], names: vec![Some(b"./a/two".to_vec()), Some(b"./a/one".to_vec())] });
-    out.push(Hostile { stripped: false, label: "cpio-name-dotdot".into(), files: vec![f1, f2], contents: vec![c1, c2], names: vec![Some(b"./../../escaped-by-cpio-name".to_vec()), Some(format!("{outside}/abs-cpio-name").into_bytes())] });
+    // headers that announce sizes nobody can allocate (64-bit size tag), with a few bytes in the archive
+    // (only values whose allocation request is refused before the allocator is asked: an allocation failure
+    // would abort this process, and memory in proportion is judged by C04 in worker processes)
+    for huge in [u64::MAX, (isize::MAX as u64) + 1, u64::MAX - 7] {
+        let (mut f, c) = hfile("/a/", "huge", reg, b"small", "");
+        f.size = huge;
+        let (f2, c2) = hfile("/a/", "next", reg, b"next file", "");
+        out.push(Hostile { stripped: false, label: "announced-size-beyond-memory".into(), files: vec![f, f2], contents: vec![c, c2], names: vec![None; 2], long_sizes: true });
+    }
+    out.push(Hostile { stripped: false, label: "cpio-name-disagrees".into(), files: vec![f1.clone(), f2.clone()], contents: vec![c1.clone(), c2.clone()], names: vec![Some(b"./a/two".to_vec()), Some(b"./a/one".to_vec())], long_sizes: false });
+    out.push(Hostile { stripped: false, label: "cpio-name-dotdot".into(), files: vec![f1, f2], contents: vec![c1, c2], names: vec![Some(b"./../../escaped-by-cpio-name".to_vec()), Some(format!("{outside}/abs-cpio-name").into_bytes())], long_sizes: false });
     // seeded combinations of the ingredients
     let dirs = ["/a/", "/a/b/", "/../", "/a/../../", "/a/lnk/", "/", "//", "/a/./", &format!("{outside}/")];
     let bases = ["f", "lnk", "../up", "x/y", "", ".", "..", "canary.txt", "secret"];
@@ -408,14 +423,14 @@ fn hostile_cases(jail_root: &Path, rng: &mut Rng, n_random: usize) -> Vec<Hostil
         }
         let (files, contents): (Vec<HFile>, Vec<Vec<u8>>) = items.into_iter().unzip();
         let nn = files.len();
-        out.push(Hostile { stripped: false, label: "random-combination".into(), files, contents, names: vec![None; nn] });
+        out.push(Hostile { stripped: false, label: "random-combination".into(), files, contents, names: vec![None; nn], long_sizes: false });
     }
     // every case once more with index-addressed (stripped) archive entries
     let n = out.len();
     for i in 0..n {
         let h = &out[i];
         if h.names.iter().all(|x| x.is_none()) {
-            let c = Hostile { stripped: true, label: h.label.clone(), files: h.files.clone(), contents: h.contents.clone(), names: h.names.clone() };
+            let c = Hostile { stripped: true, label: h.label.clone(), files: h.files.clone(), contents: h.contents.clone(), names: h.names.clone(), long_sizes: h.long_sizes };
             out.push(c);
         }
     }
@@ -433,7 +448,7 @@ fn hostile_package(h: &Hostile) -> Vec<u8> {
         }
     }
     archive.extend(mcpio::enc_trailer());
-    package_with_files("hostile", &h.files, &archive, None, h.stripped)
+    package_with_files("hostile", &h.files, &archive, None, h.stripped || h.long_sizes)
 }
 
 /// built packages extracted by an UNPRIVILEGED user (uid 65534) in a child process: root is not
